@@ -26,6 +26,7 @@ def cubes(tier):
         out += _split(dict(link="copy", delete=True, form="lazy", oldhash=False), [(2, 2), (1, 2)])
         out += _split(dict(link="copy", delete=True, form="lazy", deep=True), [(0, 2), (2, 2)])
         out += _split(dict(link="copy", delete=True, form="explicit", oldhash=False), [(2, 1), (1, 2)])
+        out += _split(dict(link="copy", delete=True, form="explicit", dangling=True), [(2, 1), (2, 0), (0, 1)])
         return out
     out = []
     for link in ("copy", "hardlink", "symlink"):
@@ -40,6 +41,8 @@ def cubes(tier):
     for form in ("explicit", "lazy"):
         for delete in (True, False):
             out += _split(dict(link="copy", delete=delete, form=form, oldhash=False), ALL if form == "explicit" else [(k, 2) for k in range(3)])
+    out += _split(dict(link="copy", delete=True, form="explicit", dangling=True), ALL)
+    out += _split(dict(link="symlink", delete=True, form="lazy", dangling=True), [(k, 2) for k in range(3)])
     return out
 
 
@@ -62,7 +65,7 @@ SPEC = Spec(
           stubs=("model local filesystem + model os.stat/os.chmod", "progress bars/logging silenced")),
     ],
     assumptions=["target data (except symbolically unavailable files) is present and intact in the cache",
-                 "no symlinks or special files in the prior workspace"],
+                 "no special files in the prior workspace; symlinks only as the dangling links of the `dangling` cubes (one at the root, one inside directory a)"],
     outside=["trees deeper than 3 levels or wider than the 4-node universe", "SQLite-backed indexes", "FileStorage targets / cloud filesystems",
              "observed but outside the statement: apply() raises FileNotFoundError from _chmod_files after reporting an unavailable executable entry"],
     explanation="CrossHair runs the real build_entries/compare/apply on the model workspace with prior and target tree shapes, content-equality, "
